@@ -1383,7 +1383,9 @@ class Concatenate(CanBehaveLikeAVariable[T]):
             self._child_._eval_parent_ = previous_eval_parent
         # what was bound before the concatenation was evaluated keeps its own value (it is not turned into a list of
         # copies of itself, one per concatenated row).
-        result = {k: HashedValue(v) for k, v in all_values.items() if k not in sources}
+        # ... and what the concatenation ranged over stays unbound: the concatenated value is all the row carries, so
+        # that the same variables can be used again beside it (a second concatenation, a condition on them).
+        result = {self._id_: HashedValue(all_values[self._id_])}
         result.update(sources)
         yield result
 
